@@ -179,6 +179,20 @@ CLAIMED["C05"] = dict(
     technique="term extraction from MIR (folds, polynomial identities) + decision table of winding_order",
 )
 
+CLAIMED["C06"] = dict(
+    category="other",
+    text=("Structural clauses from tables/terms extracted from MIR: R6.1 dimension dominance of WeightedCentroid::add_assign/sub_assign (Less -> "
+          "replace, Greater -> ignore, Equal -> combine accumulated AND weight with the same operator); R6.2 add_centroid stores "
+          "centroid·weight, centroid() = accumulated/weight and None iff nothing was added; R6.3 early-exit guards are the strict `>` against "
+          "the dimension being added; R6.4 add_geometry dispatches all 10 variants, zero-area polygon -> outline (add_line_string), zero-area "
+          "ring -> point / line string by its dimensions; R6.5 ring moment step accum + (start+end)·det on segments shifted by ring[0] "
+          "(polynomial identity), centroid = acc/(6·area) + shift, weight |area|, dimension Two. Not decided: numeric accuracy, equivariance in "
+          "floats, hull containment."),
+    design_ref="DESIGN.md §4 C06",
+    note="Trusted: Area (C05). Numeric clauses are not claimed.",
+    technique="decision/effect tables + polynomial terms extracted from MIR",
+)
+
 NOT_YET = "rule set not implemented in this revision of /verif (see DESIGN.md §7 build order); nothing is claimed"
 NA = {}
 
